@@ -230,7 +230,7 @@ PROPERTY = Property(
           "means; distinct by (fitness table, sizes, flags, seed)"),
     obligations=[
         Obligation("select", run_select, strategy=select_strategy,
-                   examples={"quick": 45, "thorough": 600}, shards={"quick": 12, "thorough": 16},
+                   examples={"quick": 20, "thorough": 600}, shards={"quick": 12, "thorough": 16},
                    shrink_budget={"quick": 80, "thorough": 400}),
     ],
     assumptions=["parents are identified by value (weights + fitness list); agents are built from distinct seeds so weights are distinct",
